@@ -32,14 +32,14 @@ theorem senders_normalise :
 /-- whatever flags the caller left on the frames, one `send_multipart` call puts one well-formed message on the
 wire, payloads untouched -/
 theorem normalise_whole (fs : List Frame) (h : fs ≠ []) : WholeMsg (normaliseMore fs) := by
-  sorry
+  exact normaliseMore_whole fs h
 
 theorem normalise_keeps_payloads (fs : List Frame) :
     (normaliseMore fs).map (·.payload) = fs.map (·.payload) ∧ (normaliseMore fs).length = fs.length := by
-  sorry
+  exact ⟨normaliseMore_payloads fs, normaliseMore_length fs⟩
 
 theorem normalise_idempotent (fs : List Frame) (h : WholeMsg fs) : normaliseMore fs = fs := by
-  sorry
+  exact normaliseMore_of_whole fs h
 
 /-- the limits fit together: what `send_multipart` accepts, plus the one envelope frame a sending socket may add,
 is within what the receiving engine accepts; that, plus the identity frame a receiving socket may prepend, is within
@@ -61,7 +61,8 @@ theorem engine_delivers_only_whole_messages (spec : AbsSpec) (cfg : Cfg)
     (hlim : Gen.MAX_FRAMES_PER_MESSAGE ≤ cfg.frameLimit) (reads : List (Nat × Bytes)) (m : Message)
     (h : AppAct.deliver m ∈ (feedAll spec cfg Eng.init reads).2.app) :
     WholeMsg m ∧ m.length ≤ Gen.MAX_FRAMES_PER_MESSAGE := by
-  sorry
+  have _ := hlim   -- not needed: the engine's own check comes before the container limit
+  exact (feedAll_mp spec cfg reads).2 m h
 
 -- receiving socket -------------------------------------------------------------------------------------------
 
@@ -74,26 +75,28 @@ one contiguous and complete (nothing lost, nothing interleaved, whatever other p
 theorem stash_contiguous (evs : List StashEv) (h : PutsWhole evs) :
     let s := Stash.run {} evs
     s.returned ++ s.stashed = s.taken.flatten := by
-  sorry
+  exact (StashInv.init.run evs h).contig
 
 /-- every `recv_multipart()` result ends a message: it is a whole message, or the whole rest of the one being read -/
 theorem recv_multipart_ends_message (evs : List StashEv) (h : PutsWhole evs) :
     ∀ r ∈ (Stash.run {} evs).mpResults, r ≠ [] ∧ (∀ f, r.getLast? = some f → f.more = false)
       ∧ (∀ f ∈ r.dropLast, f.more = true) := by
-  sorry
+  intro r hr
+  obtain ⟨h0, h1, h2⟩ := (StashInv.init.run evs h).mp r hr
+  exact ⟨h0, h2, h1⟩
 
 /-- what is stashed is always the proper rest of one message: its last frame closes the message -/
 theorem stash_is_message_tail (evs : List StashEv) (h : PutsWhole evs) :
     let s := Stash.run {} evs
     s.stashed ≠ [] → (∀ f ∈ s.stashed.dropLast, f.more = true) ∧ (∀ f, s.stashed.getLast? = some f → f.more = false) := by
-  sorry
+  exact (StashInv.init.run evs h).stashed_tail
 
 /-- messages of one peer are taken in the order they arrived, none skipped: what was taken from a pipe, followed by
 what still waits in it, is what was queued into it -/
 theorem per_pipe_fifo (evs : List StashEv) (p : Nat) :
     let s := Stash.run {} evs
     ((s.takenFrom.filter (·.1 == p)).map (·.2)) ++ s.queueOf p = (s.accepted.filter (·.1 == p)).map (·.2) := by
-  sorry
+  exact FifoInv.init.run evs p
 
 /-- the earlier shape (`deregister_pipe` cleared the stash): a peer detaching in the middle of a frame-by-frame read
 loses the rest of the message — the next frame returned belongs to another message although the last one said MORE -/
@@ -104,7 +107,7 @@ theorem detach_cleared_stash_counterexample :
     let s := Stash.run { cfg := { keepOnDetach := false } }
       [.register 1 8, .register 2 8, .put 1 [a1, a2], .put 1 [b1], .recv, .detach 2, .recv]
     s.returned = [a1, b1] := by
-  sorry
+  decide
 
 /-- the earlier shape of DEALER/ROUTER (`recv_multipart` ignored the stash): mixing the two styles returned the next
 message while the rest of the current one was still stashed -/
@@ -115,6 +118,6 @@ theorem mp_ignores_stash_counterexample :
     let s := Stash.run { cfg := { mpUsesStash := false } }
       [.register 1 8, .put 1 [a1, a2], .put 1 [b1], .recv, .recvMultipart]
     s.returned = [a1, b1] ∧ s.stashed = [a2] := by
-  sorry
+  decide
 
 end Rzmq.C02
